@@ -492,10 +492,13 @@ Theorem agrees_satisfies_proved t :
   agrees t = true -> covered constrains t = true -> satisfies t = true.
 Proof.
   intros Hbit HA HC. unfold agrees in HA.
+  unfold covered in HC. apply andb_true_iff in HC. destruct HC as [HO HC].
   apply andb_true_iff in HA. destruct HA as [HA Hcl]. apply andb_true_iff in HA. destruct HA as [HA _].
   apply andb_true_iff in HA. destruct HA as [HA Hwn].
-  apply andb_true_iff in HA. destruct HA as [HA Hwo]. apply andb_true_iff in HA. destruct HA as [He _]. apply errs_eqb_eq in He.
-  unfold satisfies, covered in *. destruct (t_claim t) as [| |q|q|q|q|q]; cbn [claim_holds] in Hcl.
+  apply andb_true_iff in HA. destruct HA as [HA Hwo]. apply andb_true_iff in HA. destruct HA as [He _].
+  unfold errors_agree in He. destruct (t_pkg_orders t); [|discriminate]. cbn [existsb] in He. rewrite orb_false_r in He.
+  apply errs_eqb_eq in He.
+  unfold satisfies in *. destruct (t_claim t) as [| |q|q|q|q|q|]; cbn [claim_holds] in Hcl.
   - reflexivity.
   - rewrite <- He. unfold check_compat. rewrite compat_silent_proved; auto. apply compatb_sound; exact Hcl.
   - unfold parent_constraint in HC. destruct (split_last q) as [[par x]|] eqn:SL; [|discriminate].
@@ -536,6 +539,7 @@ Proof.
     rewrite <- He. unfold reported_near. apply existsb_exists. exists e. split.
     + eapply sub_at_reported; eauto.
     + apply orb_true_iff. destruct Pe as [Pe|[x Pe]]; [left | right]; apply path_eqb_eq; rewrite Pe; [reflexivity | apply removelast_snoc].
+  - discriminate.
   - discriminate.
 Qed.
 
